@@ -649,6 +649,90 @@ fn traversal_sweep() {
     println!("mismatches {}", bad);
 }
 
+// C13: every ordered pair of implicit type requests on a fresh builder: the same request twice returns the same id and adds
+// nothing; different requests get different ids and one declaration each; an explicit-id request always appends.
+fn dedup_sweep() {
+    use rspirv::dr::Builder;
+    type Req = (&'static str, fn(&mut Builder, u32, u32) -> u32);
+    let reqs: Vec<Req> = vec![
+        ("void", |b, _, _| b.type_void()),
+        ("bool", |b, _, _| b.type_bool()),
+        ("int32u", |b, _, _| b.type_int(32, 0)),
+        ("int32s", |b, _, _| b.type_int(32, 1)),
+        ("int64u", |b, _, _| b.type_int(64, 0)),
+        ("float32", |b, _, _| b.type_float(32, None)),
+        ("float64", |b, _, _| b.type_float(64, None)),
+        ("vec2", |b, f, _| b.type_vector(f, 2)),
+        ("vec3", |b, f, _| b.type_vector(f, 3)),
+        ("vec2u", |b, _, u| b.type_vector(u, 2)),
+        ("struct0", |b, _, _| b.type_struct(vec![])),
+        ("struct_f", |b, f, _| b.type_struct(vec![f])),
+        ("struct_fu", |b, f, u| b.type_struct(vec![f, u])),
+        ("struct_uf", |b, f, u| b.type_struct(vec![u, f])),
+        ("struct_fuf", |b, f, u| b.type_struct(vec![f, u, f])),
+        ("fn_f", |b, f, _| b.type_function(f, vec![])),
+        ("fn_f_f", |b, f, _| b.type_function(f, vec![f])),
+        ("fn_f_fu", |b, f, u| b.type_function(f, vec![f, u])),
+        ("fn_u", |b, _, u| b.type_function(u, vec![])),
+        ("img", |b, f, _| b.type_image(f, spirv::Dim::Dim2D, 0, 0, 0, 1, spirv::ImageFormat::Unknown, None)),
+        ("img_ro", |b, f, _| b.type_image(f, spirv::Dim::Dim2D, 0, 0, 0, 1, spirv::ImageFormat::Unknown, Some(spirv::AccessQualifier::ReadOnly))),
+        ("img_wo", |b, f, _| b.type_image(f, spirv::Dim::Dim2D, 0, 0, 0, 1, spirv::ImageFormat::Unknown, Some(spirv::AccessQualifier::WriteOnly))),
+        ("sampler", |b, _, _| b.type_sampler()),
+        ("rtarr_f", |b, f, _| b.type_runtime_array(f)),
+        ("rtarr_u", |b, _, u| b.type_runtime_array(u)),
+        ("arr_f_u", |b, f, u| b.type_array(f, u)),
+        ("ptr_fn_f", |b, f, _| b.type_pointer(None, spirv::StorageClass::Function, f)),
+        ("ptr_priv_f", |b, f, _| b.type_pointer(None, spirv::StorageClass::Private, f)),
+        ("ptr_fn_u", |b, _, u| b.type_pointer(None, spirv::StorageClass::Function, u)),
+        ("pipe_ro", |b, _, _| b.type_pipe(spirv::AccessQualifier::ReadOnly)),
+        ("pipe_wo", |b, _, _| b.type_pipe(spirv::AccessQualifier::WriteOnly)),
+    ];
+    let mut checked = 0u64;
+    for (la, fa) in &reqs {
+        for (lb, fb) in &reqs {
+            let mut b = Builder::new();
+            let f = b.type_float(32, None);
+            let u = b.type_int(32, 0);
+            let ida = fa(&mut b, f, u);
+            let n1 = b.module_ref().types_global_values.len();
+            let idb = fb(&mut b, f, u);
+            let n2 = b.module_ref().types_global_values.len();
+            let same = la == lb;
+            // a request equal to one of the two base declarations is itself a repeat
+            let b_is_base = *lb == "float32" || *lb == "int32u";
+            if same && (idb != ida || n2 != n1) {
+                println!("MISMATCH {} then {}: the repeated request returned id {} (first {}), declarations {} -> {}", la, lb, idb, ida, n1, n2);
+            }
+            if !same && idb == ida {
+                println!("MISMATCH {} then {}: different requests share id {}", la, lb, ida);
+            }
+            if !same && !b_is_base && n2 != n1 + 1 {
+                println!("MISMATCH {} then {}: a new type request changed the declarations {} -> {}", la, lb, n1, n2);
+            }
+            // no two identical declarations among implicitly requested types
+            let tgv = &b.module_ref().types_global_values;
+            for i in 0..tgv.len() { for j in 0..i {
+                if tgv[i].class.opcode == tgv[j].class.opcode && tgv[i].operands == tgv[j].operands {
+                    println!("MISMATCH {} then {}: duplicate declaration {:?}", la, lb, tgv[i].class.opcode);
+                }
+                if tgv[i].result_id == tgv[j].result_id { println!("MISMATCH {} then {}: two declarations share id {:?}", la, lb, tgv[i].result_id); }
+            } }
+            checked += 1;
+        }
+        // explicit id: always appends, carries the id
+        let mut b = Builder::new();
+        let f = b.type_float(32, None);
+        let u = b.type_int(32, 0);
+        let _ = fa(&mut b, f, u);
+        let n1 = b.module_ref().types_global_values.len();
+        let r = b.type_struct_id(Some(77), vec![f]);
+        let r2 = b.type_struct_id(Some(78), vec![f]);
+        let n2 = b.module_ref().types_global_values.len();
+        if r != 77 || r2 != 78 || n2 != n1 + 2 { println!("MISMATCH explicit after {}: ids {} {}, declarations {} -> {}", la, r, r2, n1, n2); }
+    }
+    println!("checked pairs {}", checked);
+}
+
 fn main() {
     let args: Vec<String> = env::args().collect();
     match args.get(1).map(|s| s.as_str()) {
@@ -665,6 +749,7 @@ fn main() {
         Some("parse-batch") => parse_batch(),
         Some("reflect-sweep") => reflect_sweep(),
         Some("traversal-sweep") => traversal_sweep(),
+        Some("dedup-sweep") => dedup_sweep(),
         Some("builder-batch") => {
             use std::io::BufRead;
             std::panic::set_hook(Box::new(|_| {}));
